@@ -333,6 +333,11 @@ impl LineBuffer {
 
     /// Reset this buffer, such that it can be used with a new reader.
     fn clear(&mut self) {
+        // A previous reader may have grown the buffer to hold a long line.
+        // How much is read at once decides how far ahead binary data is
+        // noticed, so start every reader with the configured capacity (the
+        // allocation itself is kept).
+        self.buf.truncate(self.config.capacity);
         self.pos = 0;
         self.last_lineterm = 0;
         self.end = 0;
